@@ -93,6 +93,12 @@ Theorem c07_helper_sources_are_direct :
   /\ covers src_delegations "src/system.rs" (value_fns ++ predicate_fns) = true.
 Proof. split; vm_compute; reflexivity. Qed.
 
+(* Saturating, Sum, Zero / is_zero and Default forward to the storage type's own operation on the stored value(s) *)
+Theorem c07_forwarding_impl_sources_are_direct :
+  forallb (fun e => negb (in_list (dl_fn e) ["saturating_add"%string; "saturating_sub"%string; "sum"%string; "zero"%string; "is_zero"%string; "default"%string]) || deleg_ok e) src_delegations = true
+  /\ covers src_delegations "src/system.rs" ["saturating_add"%string; "saturating_sub"%string; "sum"%string; "zero"%string; "is_zero"%string; "default"%string] = true.
+Proof. split; vm_compute; reflexivity. Qed.
+
 (* ---- the identity of re-basing between identical base units rests on the shortcut `if r == l { v }` of change_base, taken on
    the COEFFICIENTS (never on computed powers, which may overflow or underflow): the model's change_base is the source's
    (Gen/ConvSrc.v is regenerated from src/system.rs on every run) ---- *)
